@@ -807,11 +807,28 @@ impl endpoint::Session for Session {
         let first = disposition.first;
         let last = disposition.last.unwrap_or(first);
 
+        // The range comes from the peer: walk the deliveries this session knows in it,
+        // in order, never the up to 2^32 ids it spans
+        let ids_in_range: Vec<DeliveryNumber> = if first > last {
+            Vec::new()
+        } else if ((last - first) as usize) < self.delivery_tag_by_id.len() {
+            (first..=last).collect()
+        } else {
+            let mut ids: Vec<DeliveryNumber> = self
+                .delivery_tag_by_id
+                .keys()
+                .filter(|(role, id)| *role == disposition.role && first <= *id && *id <= last)
+                .map(|(_, id)| *id)
+                .collect();
+            ids.sort_unstable();
+            ids
+        };
+
         // A disposition frame may refer to deliveries on multiple links, each may be running
         // in different mode. This counts the largest sections that can be echoed back together
         if disposition.settled {
             // If it is alrea
-            for delivery_id in first..=last {
+            for delivery_id in ids_in_range {
                 let key = (disposition.role.clone(), delivery_id);
                 if let Some((handle, delivery_tag)) = self.delivery_tag_by_id.remove(&key) {
                     if let Some(link_handle) = self.link_by_input_handle.get_mut(&handle) {
@@ -828,7 +845,7 @@ impl endpoint::Session for Session {
             Ok(None)
         } else {
             let mut delivery_ids = Vec::new();
-            for delivery_id in first..=last {
+            for delivery_id in ids_in_range {
                 let key = (disposition.role.clone(), delivery_id);
                 if let Some((handle, delivery_tag)) = self.delivery_tag_by_id.get(&key) {
                     if let Some(link_handle) = self.link_by_input_handle.get_mut(handle) {
